@@ -14,6 +14,7 @@ import Qvnt.Lemmas.GenInt.int_process_measure_eq
 import Qvnt.Lemmas.GenInt.eq_toE_of_exToRes
 import Qvnt.Lemmas.GenInt.bind_ok_self
 import Qvnt.Lemmas.GenInt.MacrosDisjoint
+import Qvnt.Lemmas.GenInt.MacrosInv
 import Qvnt.Lemmas.GenInt.int_process_apply_gate_eq
 import Qvnt.Lemmas.GenInt.int_process_gate_eq
 import Qvnt.Lemmas.GenInt.int_process_if_eq
@@ -25,7 +26,7 @@ variable {R : Type}
 section proc
 variable [Add R] [Sub R] [Mul R] [Neg R] [Div R] [ExprFns R] [AngleFns R]
 
-theorem int_process_node_eq [Zero R] [One R] [Consts R] (s c : Interp R) (hd : MacrosDisjoint s c) (node : Node R) :
+theorem int_process_node_eq [Zero R] [One R] [Consts R] (s c : Interp R) (hd : MacrosInv s c) (node : Node R) :
     int_process_node s c node = (Interp.processNode s c node).toE := by
   unfold int_process_node
   cases node with
